@@ -118,12 +118,14 @@ type C06UCall struct {
 }
 
 type C06Unary struct {
+	// Stats: do-nothing stats handlers on server and client (kit.Topo.Stats)
+	Stats bool       `json:"stats,omitempty"`
 	Calls []C06UCall `json:"calls"`
 	Ser   bool       `json:"ser"`
 }
 
 func genC06Unary(t *rapid.T) C06Unary {
-	c := C06Unary{Ser: rapid.Bool().Draw(t, "ser")}
+	c := C06Unary{Ser: rapid.Bool().Draw(t, "ser"), Stats: rapid.IntRange(0, 3).Draw(t, "stats") == 0}
 	n := rapid.IntRange(1, 6).Draw(t, "n")
 	for i := 0; i < n; i++ {
 		c.Calls = append(c.Calls, C06UCall{How: rapid.SampledFrom([]string{"cancel", "cancel", "deadline", "none"}).Draw(t, "how"), Where: rapid.SampledFrom([]string{"handler", "reply"}).Draw(t, "where")})
@@ -155,7 +157,7 @@ func execC06Unary(t *testing.T, c C06Unary) (v Verdict) {
 				return append([]byte("re:"), req...), nil
 			})
 		}
-		w := kit.NewWorld(kit.Topo{Kind: "direct", Serialize: c.Ser, Clients: 1}, svc, nil, nil)
+		w := kit.NewWorld(kit.Topo{Kind: "direct", Serialize: c.Ser, Clients: 1, Stats: c.Stats}, svc, nil, nil)
 		l := w.Links[0]
 		l.B.Hold(func(r *kit.Rpc) bool { return true }) // every reply write waits for its release
 		cancels := make([]context.CancelFunc, n)
@@ -236,3 +238,151 @@ func execC06Unary(t *testing.T, c C06Unary) (v Verdict) {
 }
 
 func TestC06Unary(t *testing.T) { checkProp(t, "C06", "unary-cancel", genC06Unary, execC06Unary) }
+
+// ---- calls whose context ends before or during the opening write ----------------------------
+//
+// Whatever a call puts on the wire must be a prefix-closed protocol history also when its context is already over when
+// it starts, or ends while its first envelope is parked in the transport: nothing at all, or a proper opening.
+
+type C06OCall struct {
+	Kind int    `json:"kind"`
+	When string `json:"when"` // pre-cancelled | pre-expired | parked-cancel | parked-deadline
+}
+
+type C06Open struct {
+	// Stats: do-nothing stats handlers on server and client (kit.Topo.Stats)
+	Stats bool       `json:"stats,omitempty"`
+	Calls []C06OCall `json:"calls"`
+	Ser   bool       `json:"ser"`
+}
+
+func genC06Open(t *rapid.T) C06Open {
+	c := C06Open{Ser: rapid.Bool().Draw(t, "ser"), Stats: rapid.IntRange(0, 3).Draw(t, "stats") == 0}
+	n := rapid.IntRange(1, 6).Draw(t, "n")
+	for i := 0; i < n; i++ {
+		c.Calls = append(c.Calls, C06OCall{Kind: rapid.SampledFrom(allKinds).Draw(t, "kind"), When: rapid.SampledFrom([]string{"pre-cancelled", "pre-expired", "parked-cancel", "parked-deadline"}).Draw(t, "when")})
+	}
+	return c
+}
+
+func execC06Open(t *testing.T, c C06Open) (v Verdict) {
+	n := len(c.Calls)
+	var mu sync.Mutex
+	ran := make([]int, n)
+	returned := 0
+	var tap []kit.Ev
+	res := kit.Bubble(t, func() {
+		svc := kit.NewSvc()
+		for i := range c.Calls {
+			i := i
+			svc.Unary(fmt.Sprintf("m%d", i), func(ctx context.Context, req []byte) ([]byte, error) {
+				mu.Lock()
+				ran[i]++
+				mu.Unlock()
+				return req, nil
+			})
+			svc.Stream(fmt.Sprintf("s%d", i), true, true, func(s grpcServerStream) error {
+				mu.Lock()
+				ran[i]++
+				mu.Unlock()
+				<-s.Context().Done()
+				return s.Context().Err()
+			})
+		}
+		w := kit.NewWorld(kit.Topo{Kind: "direct", Serialize: c.Ser, Clients: 1, Stats: c.Stats}, svc, nil, nil)
+		l := w.Links[0]
+		// opening envelopes (unary requests, header-only stream opens) park in the transport
+		l.A.Hold(func(r *kit.Rpc) bool { return r.GetTrailer() == nil && r.GetReset_() == nil })
+		var wg sync.WaitGroup
+		cancels := make([]context.CancelFunc, n)
+		for i, call := range c.Calls {
+			i, call := i, call
+			ctx, cancel := context.WithCancel(context.Background())
+			switch call.When {
+			case "pre-cancelled":
+				cancel()
+			case "pre-expired":
+				ctx, cancel = context.WithDeadline(context.Background(), time.Now().Add(-time.Second))
+			case "parked-deadline":
+				ctx, cancel = context.WithTimeout(context.Background(), 30*time.Millisecond)
+			}
+			cancels[i] = cancel
+			wg.Add(1)
+			go func() {
+				defer wg.Done()
+				defer func() {
+					mu.Lock()
+					returned++
+					mu.Unlock()
+				}()
+				if call.Kind == kit.KindUnary {
+					_, _ = kit.Invoke(ctx, w.Conn(0), fmt.Sprintf("m%d", i), []byte{byte(i)})
+					return
+				}
+				cs, err := w.Conn(0).NewStream(ctx, kit.StreamDescFor(call.Kind), kit.FullMethod(fmt.Sprintf("s%d", i)))
+				if err != nil {
+					return
+				}
+				_ = kit.SendBytes(cs, []byte{byte(i)})
+				_ = cs.CloseSend()
+				_, _ = kit.RecvBytes(cs)
+			}()
+		}
+		kit.Settle()
+		for i, call := range c.Calls {
+			if call.When == "parked-cancel" {
+				cancels[i]()
+				kit.Settle()
+			}
+		}
+		time.Sleep(50 * time.Millisecond) // the deadlines pass while the opening writes are parked
+		kit.Settle()
+		l.A.Hold(nil)
+		for _, h := range l.Held() {
+			h.Release()
+		}
+		kit.Settle()
+		wg.Wait()
+		for _, cancel := range cancels {
+			cancel()
+		}
+		kit.Settle()
+		tap = w.Tap.Snapshot()
+		w.Shutdown()
+		kit.Settle()
+	})
+	if res.Panic != nil {
+		v.failf("panic: %v\n%s", res.Panic, res.Stack)
+	}
+	if returned != n {
+		v.failf("%d of %d calls whose context had ended returned", returned, n)
+	}
+	// every id that appears on the wire gets facts: its caller's context ended, no handler result is owed
+	var facts []kit.StreamFacts
+	seen := map[uint64]bool{}
+	for _, e := range kit.Filter(tap, "c0", kit.AtoB) {
+		id := e.Rpc.GetId()
+		if seen[id] {
+			continue
+		}
+		seen[id] = true
+		m := e.Rpc.GetHeader().GetMethod()
+		facts = append(facts, kit.StreamFacts{Conn: "c0", Client: "c0", Server: kit.ServerName, ID: id, Method: m, Unary: strings.HasPrefix(m, kit.FullMethod("m")), CallerReset: true, AllowLateClientEnvs: true})
+	}
+	viol, _, _ := kit.CheckWire(tap, facts)
+	for _, m := range viol {
+		v.failf("WIRE %s", m)
+	}
+	for i := range c.Calls {
+		if ran[i] > 1 {
+			v.failf("WIRE call %d: its handler ran %d times", i, ran[i])
+		}
+	}
+	v.Info = kit.CaseInfo{Labels: []string{"family=ended-at-open", fmt.Sprintf("open.wire_ids=%d", min(len(seen), 3))}, NonTrivial: true, Key: fmt.Sprintf("%+v", c), Sample: map[string]any{"calls": c.Calls, "wire_head": tapSummary(tap, 8)}}
+	if v.Fail != "" {
+		v.Detail = map[string]any{"wire": tapSummary(tap, 60)}
+	}
+	return
+}
+
+func TestC06Open(t *testing.T) { checkProp(t, "C06", "ended-at-open", genC06Open, execC06Open) }
